@@ -86,7 +86,7 @@ Proof.
     unfold orc, orc_of at 1. destruct (lookup a) eqn:E.
     - cbn. repeat split; auto.
     - specialize (IH (called a s0)). unfold orc in IH. destruct (try_names _ (called a s0) r); cbn in IH |- *; exact IH. }
-  specialize (T (probe_names (relative cur u) (cands k)) s).
+  specialize (T (find_names cur k u) s).
   destruct (try_names orc s _) as [p id rd s1|s1|s1]; auto.
   destruct T as (L & C & Tr & Lk).
   destruct (negb (known_format p)); auto. destruct (negb rd); auto.
